@@ -106,6 +106,10 @@ def replay_input(rec, s, j, tz="UTC"):
 def oracle_c01(res):
     """classification completed; no storm/rise repeated; each pair shares a step."""
     if res["classify"][0] != "ok":
+        if (not res["loaded"]["water_level"] and res["classify"][1] == "ValueError"
+                and "No valid data intervals" in res["classify"][2]):
+            # no water level fell on the grid at all: the documented refusal, outside C01's quantifier
+            return {"name": "c01Holds", "result": True, "note": "dataset without any gridded water level"}
         return {"name": "c01Holds", "result": False, "witness": {"classify": list(res["classify"])}}
     im = res["impl"]
     ss = [p[0][0] for p in im["pairs"]]
